@@ -1,16 +1,19 @@
 #!/bin/bash
 # Evaluates a seeded defect without touching /repo: ./mutcheck.sh <patch.diff> <property> [tier] [extra patch ...]
-# Applies the patch to the scratch worktree /tmp/mutrepo, builds a copy of the simulator against it, runs the check.
+# Applies the patch to the scratch worktree $MR, builds a copy of the simulator against it, runs the check.
 set -u
 PATCH="$1"; PROP="$2"; TIER="${3:-quick}"
-git -C /tmp/mutrepo checkout -q -- . && git -C /tmp/mutrepo clean -fdq -e target && git -C /tmp/mutrepo checkout -q --detach $(git -C /repo rev-parse HEAD)
-git -C /tmp/mutrepo apply "$PATCH" || { echo "patch does not apply"; exit 3; }
-mkdir -p /tmp/mutsim
-rsync -a --delete --exclude target /verif/sim/ /tmp/mutsim/sim/
-grep -rl '/repo/' /tmp/mutsim/sim/Cargo.toml /tmp/mutsim/sim/src | xargs sed -i 's#"/repo/#"/tmp/mutrepo/#g'
-( cd /tmp/mutsim/sim && CARGO_TARGET_DIR=/tmp/mutsim/target cargo build --release --offline 2>&1 | grep -E "^error" -A8 | head -30 )
-mkdir -p /tmp/mutsim/out
-cp /verif/known_findings.json /tmp/mutsim/out/
-VERIF_ROOT=/tmp/mutsim/out /tmp/mutsim/target/release/simctl check "$PROP" "$TIER" 2>&1 | grep -v "^  note" | cut -c1-400
+# MUTSLOT selects an independent scratch pair so that several evaluations can run in parallel.
+S="${MUTSLOT:-}"; MR=/tmp/mutrepo$S; MS=/tmp/mutsim$S
+[ -d $MR ] || git -C /repo worktree add -q --detach $MR HEAD
+git -C $MR checkout -q -- . && git -C $MR clean -fdq -e target && git -C $MR checkout -q --detach $(git -C /repo rev-parse HEAD)
+git -C $MR apply "$PATCH" || { echo "patch does not apply"; exit 3; }
+mkdir -p $MS
+rsync -a --delete --exclude target /verif/sim/ $MS/sim/
+grep -rl '/repo/' $MS/sim/Cargo.toml $MS/sim/src | xargs sed -i "s#\"/repo/#\"$MR/#g"
+( cd $MS/sim && CARGO_TARGET_DIR=$MS/target cargo build --release --offline 2>&1 | grep -E "^error" -A8 | head -30 )
+mkdir -p $MS/out
+cp /verif/known_findings.json $MS/out/
+VERIF_ROOT=$MS/out $MS/target/release/simctl check "$PROP" "$TIER" 2>&1 | grep -v "^  note" | cut -c1-400
 echo "exit=$?"
-git -C /tmp/mutrepo checkout -q -- .
+git -C $MR checkout -q -- .
